@@ -1,9 +1,246 @@
-//! Process isolation: placeholder, filled in with the worker pool (see DESIGN.md §3.2).
+//! Process isolation (DESIGN.md §3.2): a pool of `vp worker` children, each with RLIMIT_AS,
+//! running one case at a time on an 8 MiB main-thread stack. A panic is caught inside the worker
+//! (message + location come back); a stack overflow / abort / OOM kills only the worker and is
+//! attributed to exactly the case it was running; a hang is cut by a timeout.
+use std::io::{Read, Write};
+use std::process::{Child, ChildStdin, ChildStdout, Command, Stdio};
+use std::sync::{Condvar, Mutex};
+use std::time::Duration;
 
 /// Debug aid: when VERIF_DUMP names a directory, write `bytes` there as `<name>` (used with `vp replay`).
 pub fn dump(name: &str, bytes: &[u8]) {
     if let Ok(d) = std::env::var("VERIF_DUMP") {
         let _ = std::fs::create_dir_all(&d);
         let _ = std::fs::write(std::path::Path::new(&d).join(name), bytes);
+    }
+}
+
+#[derive(Debug, Clone)]
+pub enum WorkerResult {
+    /// the driver returned; payload is its reply
+    Done(Vec<u8>),
+    /// panic caught in the worker: (message, file:line)
+    Panic(String, String),
+    /// worker died: signal number (or exit code as negative), tail of its stderr
+    Died { signal: i32, stderr: String },
+    Timeout,
+}
+
+struct Worker {
+    child: Child,
+    stdin: ChildStdin,
+    stdout: ChildStdout,
+    stderr_path: std::path::PathBuf,
+}
+
+pub struct Pool {
+    idle: Mutex<Vec<Worker>>,
+    cv: Condvar,
+    mem_limit: u64,
+    pub spawned: std::sync::atomic::AtomicU64,
+}
+
+static COUNTER: std::sync::atomic::AtomicU64 = std::sync::atomic::AtomicU64::new(0);
+
+fn spawn_worker(mem_limit: u64) -> std::io::Result<Worker> {
+    let exe = std::env::current_exe()?;
+    let id = COUNTER.fetch_add(1, std::sync::atomic::Ordering::SeqCst);
+    let stderr_path = std::env::temp_dir().join(format!("vp-worker-{}-{}.err", std::process::id(), id));
+    let errf = std::fs::File::create(&stderr_path)?;
+    let mut child = Command::new(exe)
+        .arg("worker")
+        .arg(mem_limit.to_string())
+        .stdin(Stdio::piped())
+        .stdout(Stdio::piped())
+        .stderr(errf)
+        .env("RUST_BACKTRACE", "0")
+        .spawn()?;
+    let stdin = child.stdin.take().unwrap();
+    let stdout = child.stdout.take().unwrap();
+    Ok(Worker { child, stdin, stdout, stderr_path })
+}
+
+fn read_exact_timeout(out: &mut ChildStdout, buf: &mut [u8], deadline: std::time::Instant) -> Result<(), &'static str> {
+    use std::os::unix::io::AsRawFd;
+    let fd = out.as_raw_fd();
+    let mut got = 0;
+    while got < buf.len() {
+        let now = std::time::Instant::now();
+        if now >= deadline {
+            return Err("timeout");
+        }
+        let ms = (deadline - now).as_millis().min(i32::MAX as u128) as i32;
+        let mut p = libc::pollfd { fd, events: libc::POLLIN, revents: 0 };
+        let r = unsafe { libc::poll(&mut p, 1, ms) };
+        if r == 0 {
+            return Err("timeout");
+        }
+        if r < 0 {
+            continue;
+        }
+        match out.read(&mut buf[got..]) {
+            Ok(0) => return Err("eof"),
+            Ok(n) => got += n,
+            Err(_) => return Err("eof"),
+        }
+    }
+    Ok(())
+}
+
+impl Pool {
+    pub fn new(n: usize, mem_limit: u64) -> Pool {
+        let mut v = Vec::new();
+        for _ in 0..n {
+            match spawn_worker(mem_limit) {
+                Ok(w) => v.push(w),
+                Err(e) => eprintln!("cannot spawn worker: {e}"),
+            }
+        }
+        Pool { idle: Mutex::new(v), cv: Condvar::new(), mem_limit, spawned: std::sync::atomic::AtomicU64::new(n as u64) }
+    }
+
+    fn take(&self) -> Worker {
+        let mut g = self.idle.lock().unwrap();
+        loop {
+            if let Some(w) = g.pop() {
+                return w;
+            }
+            g = self.cv.wait(g).unwrap();
+        }
+    }
+
+    fn give(&self, w: Worker) {
+        self.idle.lock().unwrap().push(w);
+        self.cv.notify_one();
+    }
+
+    /// Run one case (`kind` selects the driver in `props::worker_dispatch`).
+    pub fn run(&self, kind: &str, payload: &[u8], timeout: Duration) -> WorkerResult {
+        let mut w = self.take();
+        let mut req = Vec::with_capacity(payload.len() + kind.len() + 16);
+        req.extend_from_slice(&(kind.len() as u32).to_le_bytes());
+        req.extend_from_slice(kind.as_bytes());
+        req.extend_from_slice(&(payload.len() as u64).to_le_bytes());
+        req.extend_from_slice(payload);
+        let sent = w.stdin.write_all(&req).and_then(|_| w.stdin.flush());
+        let deadline = std::time::Instant::now() + timeout;
+        let res = if sent.is_err() {
+            Err("eof")
+        } else {
+            let mut head = [0u8; 9];
+            match read_exact_timeout(&mut w.stdout, &mut head, deadline) {
+                Err(e) => Err(e),
+                Ok(()) => {
+                    let len = u64::from_le_bytes(head[1..9].try_into().unwrap()) as usize;
+                    let mut body = vec![0u8; len.min(1 << 30)];
+                    match read_exact_timeout(&mut w.stdout, &mut body, deadline) {
+                        Err(e) => Err(e),
+                        Ok(()) => Ok((head[0], body)),
+                    }
+                }
+            }
+        };
+        match res {
+            Ok((0, body)) => {
+                self.give(w);
+                WorkerResult::Done(body)
+            }
+            Ok((_, body)) => {
+                self.give(w);
+                let s = String::from_utf8_lossy(&body).into_owned();
+                let (msg, loc) = s.split_once('\u{1}').map(|(a, b)| (a.to_string(), b.to_string())).unwrap_or((s, String::new()));
+                WorkerResult::Panic(msg, loc)
+            }
+            Err(kind_err) => {
+                // dead or hung: collect status, respawn
+                let out = if kind_err == "timeout" {
+                    let _ = w.child.kill();
+                    let _ = w.child.wait();
+                    WorkerResult::Timeout
+                } else {
+                    let status = w.child.wait().ok();
+                    use std::os::unix::process::ExitStatusExt;
+                    let signal = status.map(|s| s.signal().unwrap_or_else(|| -(s.code().unwrap_or(0)))).unwrap_or(0);
+                    let mut stderr = std::fs::read(&w.stderr_path).map(|b| String::from_utf8_lossy(&b).into_owned()).unwrap_or_default();
+                    if stderr.len() > 600 {
+                        let cut = stderr.len() - 600;
+                        let mut c = cut;
+                        while !stderr.is_char_boundary(c) {
+                            c += 1;
+                        }
+                        stderr = stderr[c..].to_string();
+                    }
+                    WorkerResult::Died { signal, stderr }
+                };
+                let _ = std::fs::remove_file(&w.stderr_path);
+                match spawn_worker(self.mem_limit) {
+                    Ok(nw) => {
+                        self.spawned.fetch_add(1, std::sync::atomic::Ordering::Relaxed);
+                        self.give(nw)
+                    }
+                    Err(e) => eprintln!("cannot respawn worker: {e}"),
+                }
+                out
+            }
+        }
+    }
+}
+
+impl Drop for Pool {
+    fn drop(&mut self) {
+        let mut g = self.idle.lock().unwrap();
+        for mut w in g.drain(..) {
+            drop(w.stdin);
+            let _ = w.child.kill();
+            let _ = w.child.wait();
+            let _ = std::fs::remove_file(&w.stderr_path);
+        }
+    }
+}
+
+/// Worker main loop: reads requests from stdin, dispatches, replies on stdout.
+pub fn worker_main(args: &[String], dispatch: fn(&str, &[u8]) -> Vec<u8>) -> ! {
+    let mem: u64 = args.first().and_then(|s| s.parse().ok()).unwrap_or(4 << 30);
+    unsafe {
+        let lim = libc::rlimit { rlim_cur: mem as libc::rlim_t, rlim_max: mem as libc::rlim_t };
+        libc::setrlimit(libc::RLIMIT_AS, &lim);
+        // no core dumps
+        let z = libc::rlimit { rlim_cur: 0, rlim_max: 0 };
+        libc::setrlimit(libc::RLIMIT_CORE, &z);
+    }
+    let stdin = std::io::stdin();
+    let mut stdin = stdin.lock();
+    let stdout = std::io::stdout();
+    let mut stdout = stdout.lock();
+    loop {
+        let mut l4 = [0u8; 4];
+        if stdin.read_exact(&mut l4).is_err() {
+            std::process::exit(0);
+        }
+        let kl = u32::from_le_bytes(l4) as usize;
+        let mut kind = vec![0u8; kl];
+        if stdin.read_exact(&mut kind).is_err() {
+            std::process::exit(0);
+        }
+        let mut l8 = [0u8; 8];
+        if stdin.read_exact(&mut l8).is_err() {
+            std::process::exit(0);
+        }
+        let mut payload = vec![0u8; u64::from_le_bytes(l8) as usize];
+        if stdin.read_exact(&mut payload).is_err() {
+            std::process::exit(0);
+        }
+        let kind = String::from_utf8_lossy(&kind).into_owned();
+        let r = super::catch(|| dispatch(&kind, &payload));
+        let (tag, body) = match r {
+            Ok(b) => (0u8, b),
+            Err((msg, loc)) => (1u8, format!("{msg}\u{1}{loc}").into_bytes()),
+        };
+        let mut out = vec![tag];
+        out.extend_from_slice(&(body.len() as u64).to_le_bytes());
+        out.extend_from_slice(&body);
+        if stdout.write_all(&out).and_then(|_| stdout.flush()).is_err() {
+            std::process::exit(0);
+        }
     }
 }
